@@ -8,7 +8,7 @@
    first use on fresh objects constructed in 0x00/0xFF/0x01-filled storage) and records inputs and outputs.
 3. TLC (Trace_PoissonLL) computes every expected array from the logged P, y, a, n, lambda and must explain
    every recorded line."""
-import os, json
+import os, json, time
 from . import lib
 
 KINDS = ["Value", "Grad", "GradPlusSens", "Sens", "AddSens", "HessTimes", "ApproxHess"]
@@ -40,9 +40,10 @@ def _context(recs, i):
 def run(ctx):
     q = ctx.quick
     W = 4 if q else 8
+    t0 = time.time()
     # ---- 1. model checks of the specification itself
     cfg = "MC_PoissonLL" if q else "MC_PoissonLL_thorough"
-    r = lib.tlc("MC_PoissonLL", cfg=cfg, workers=W, timeout=1500, heap="6g")
+    r = lib.tlc("MC_PoissonLL", cfg=cfg, workers=W, timeout=2400, heap="6g")
     ctx.mc_must_pass(r, "theorems of PoissonLL on small exact instances (%s)" % cfg, "MC_PoissonLL")
     cfg = "MC_LLSetup" if q else "MC_LLSetup_thorough"
     r = lib.tlc("MC_LLSetup", cfg=cfg, workers=2, timeout=600, heap="3g", coverage=True)
@@ -55,8 +56,10 @@ def run(ctx):
         raise lib.ModelFailure("MC_LLSetup with the pre-fix guard (Variant=reverted) was not refuted: the set-up model lost its bite")
     ctx.notes.append("MC_LLSetup Variant=reverted (guard of the value path before fix c8fce4c19): refuted by TLC as required")
 
+    t1 = time.time()
     # ---- 2. record
     exe = lib.build_driver("c05_poissonll")
+    t2 = time.time()
     scratch = os.path.join(ctx.work, "scratch")
     os.makedirs(scratch, exist_ok=True)
     traces = []
@@ -66,7 +69,7 @@ def run(ctx):
         seeds = [ctx.seed] if q else [ctx.seed, ctx.seed + 1000, ctx.seed + 2000]
         for s in seeds:
             t = os.path.join(ctx.work, "opts-%d.ndjson" % s)
-            rc, out = lib.run_driver(exe, ["opts", t, scratch, 400 if q else 2500], env={"VERIF_SEED": str(s)}, timeout=900, allow_fail=True)
+            rc, out = lib.run_driver(exe, ["opts", t, scratch, 300 if q else 2500], env={"VERIF_SEED": str(s)}, timeout=900, allow_fail=True)
             traces.append(t)
         t = os.path.join(ctx.work, "orders.ndjson")
         lib.run_driver(exe, ["orders", t, scratch, 4 if q else 6], env={"VERIF_SEED": str(ctx.seed)}, timeout=900, allow_fail=True)
@@ -75,11 +78,13 @@ def run(ctx):
         if not os.path.exists(t) or os.path.getsize(t) == 0:
             raise lib.ModelFailure("no trace recorded: %s" % t)
 
+    t3 = time.time()
     # ---- 3. validate (chunks start at a System line; every chunk is self-contained)
     chunks = []
     for t in traces:
         chunks += lib.split_trace(t, os.path.join(ctx.work, "chunks"), maxlines=4000 if q else 12000, boundary="System")
     res = _validate([c[0] for c in chunks], W, 1500)
+    ctx.notes.append("wall: model checks %.0fs, build %.0fs, recording %.0fs, trace validation %.0fs" % (t1 - t0, t2 - t1, t3 - t2, time.time() - t3))
     seen = {"kinds": set(), "tof": set(), "norm": set(), "N": set(), "fill": set(), "flags": set()}
     nobj = 0
     for (p, ok, r, at) in res:
